@@ -412,7 +412,8 @@ def run(ctx):
         'byte flips, duplicated/dropped items, deep nesting, raw random) in sequences bad*-then-good, each also replayed one '
         'frame per connection on a twin engine; (c) every composition of every stream of <= 12 bytes (quick: 8..12 bytes, 1-2 '
         'streams per length) and random chunkings (1..9000-byte chunks) of long streams incl. frames > 4096 bytes; '
-        '(d) maximum response size in {absent, 0, 1, size-1, size, size+1, 2^31-1, -1} for five operations; (e) requests '
+        '(d) maximum response size in {absent, 0, 1, size-1, size, size+1, 2^31-1, -1} for five operations, plus sequences '
+        'mixing small / absent / garbage on one connection (the limit must not outlive its request); (e) requests '
         'the engine refuses as a whole (stale/future time stamp, asynchronous, undo, version 9.9) and injected engine '
         'behaviours (crash, KmipError with ASCII/non-ASCII/unencodable text, reported maximum, unencodable response). '
         'Distinct = distinct (frame bytes, chunking); every case involves a real parse or a real framing decision.')
@@ -453,9 +454,14 @@ def run(ctx):
             for kind, fr in mutations(b, rng, per_kind):
                 bad.append((kind + ':' + lab, fr))
         bad += special_frames(rng, valid)
+        # decodable requests with a tiny limit, so that a limit leaking into the following frames would show
+        small = [('maxsmall:%s' % lab, with_max_size(info, lab, v, m), m)
+                 for lab in ('query', 'get', 'locate') for v in ((1, 0), (1, 4), (2, 0)) for m in (1, 64, -1)]
+        small_max = {fr: m for _, fr, m in small}
+        bad += [(k, fr) for k, fr, _ in small] * (2 if quick else 6)
         cap = 1500 if quick else 8000
         if len(bad) > cap:
-            keep = special_frames(rng, valid)
+            keep = special_frames(rng, valid) + [(k, fr) for k, fr, _ in small] * 2
             bad = rng.sample(bad, cap - len(keep)) + keep
         rng.shuffle(bad)
         probes = [x for x in valid if x[0] in ('get', 'create', 'locate', 'query', 'get_attributes', 'encrypt', 'batch2', 'get_attributes_unset')]
@@ -465,7 +471,7 @@ def run(ctx):
             group = bad[k:k + 4]
             good = rng.choice(probes)
             frames = [g[1] for g in group] + [good[3]]
-            meta = [{'kind': g[0]} for g in group] + [{'kind': 'good:' + good[0]}]
+            meta = [dict({'kind': g[0]}, **({'max': small_max[g[1]]} if g[1] in small_max else {})) for g in group] + [{'kind': 'good:' + good[0]}]
             stream = b''.join(frames)
             spec = sessdrv.default_spec(stream, random_chunking(len(stream), rng))
             obs = R.connection(pa, spec, meta, kind='bad-then-good', expect_frames=frames)
@@ -549,6 +555,14 @@ def run(ctx):
                 stream = b''.join(frames)
                 R.connection(px, sessdrv.default_spec(stream, random_chunking(len(stream), rng)),
                              [{'kind': 'max:%s:%r' % (lab, m), 'max': m} for m in ms], kind='max-size')
+                # the limit belongs to the request that carried it: small, absent, small, garbage, absent, ... on ONE connection
+                junk = reframe(b'\x42\x00\x78\x01\x00\x00\x00\x00' + bytes(rng.randrange(256) for _ in range(24)))
+                seq = [1, None, size - 1, None, 'junk', None, -1, 'junk', 0, 'junk', None, size, None]
+                frames = [junk if m == 'junk' else with_max_size(info, lab, v, m) for m in seq]
+                stream = b''.join(frames)
+                R.connection(px, sessdrv.default_spec(stream, random_chunking(len(stream), rng)),
+                             [{'kind': 'junk'} if m == 'junk' else {'kind': 'max:%s:%r' % (lab, m), 'max': m} for m in seq],
+                             kind='max-size-mixed', expect_frames=frames)
         pool.release(px)
         # ---------------------------------------------------------------- (e) request-level refusals and engine faults
         px = pool.fresh()
